@@ -189,7 +189,10 @@ func parsePossibility(input *input, relation *Relation) error {
 func parseSubstvar(input *input, relation *Relation) error {
 	eatWhitespace(input)
 	input.Next() /* Assert ch == '$' */
-	input.Next() /* Assert ch == '{' */
+	if input.Peek() != '{' {
+		return errors.New("Expected '{' after the '$' of a substvar")
+	}
+	input.Next()
 
 	ret := &Possibility{
 		Name:     "",
